@@ -134,8 +134,13 @@ def runChk (s : St) (ws : List String) : String :=
     let why := match extra.head? with
       -- (with alternations / quantifiers a rejected match can have a passing twin with the same capture
       -- that the match view prunes: that is the known extra-capture behaviour, not this failure)
-      | some e => if traw.contains e.triple && s.patQfree.getD e.pat s.qfree then s!"capture-of-predicate-failing-match n={extra.length} first=({e.pat},{e.cap.idx},{e.cap.node})"
-                  else explainA ms cs inc s.oldRange
+      -- Only a LATER capture of the match (position k > 0): the first capture of a state can be handed out
+      -- early, before the captures its predicates mention are bound (vacuously true on the partial match) —
+      -- that is the known early-emission behaviour, as is a capture of a state that shares the node.
+      | some _ =>
+        match (extra.filter fun e => e.k > 0 && traw.contains e.triple && s.patQfree.getD e.pat s.qfree).head? with
+        | some e => s!"capture-of-predicate-failing-match n={extra.length} first=({e.pat},{e.cap.idx},{e.cap.node})"
+        | none => explainA ms cs inc s.oldRange
       | none => explainA ms cs inc s.oldRange
     let evs := visibleEvents ms inc s.oldRange
     let tc := cs.map CapEv.triple
